@@ -249,8 +249,10 @@ def run_property(mod, tier, seed, only=None):
     errs = []
     if hasattr(mod, "finalize"):
         errs = mod.finalize(results, cov) or []
-        if only:
-            errs = []  # vacuity guards only make sense on the full case list
+        if only or violations:
+            # vacuity guards only make sense on the full case list of a tree on which the
+            # property holds: with violations present an empty bucket is a consequence
+            errs = []
     ev = {
         "property_id": pid,
         "tier": tier,
